@@ -307,7 +307,10 @@ class Probe:
         @functools.wraps(fn)
         def wrapper(*args, **kwargs):
             probe.calls[qual] = probe.calls.get(qual, 0) + 1
-            top_level_probe = probe.identity and probe.depth == 0 and sum(1 for q, _ in probe.type_calls if q == qual) < 24
+            # constructors and setters are not re-run with modified arguments: the object must end up in the state its real arguments give it
+            meth = qual.rsplit('.', 1)[-1].rsplit(':', 1)[-1]
+            no_rerun = skip_first and (meth == '__init__' or meth.startswith(('init_', 'set_')) or meth == 'to')
+            top_level_probe = probe.identity and not no_rerun and probe.depth == 0 and sum(1 for q, _ in probe.type_calls if q == qual) < 24
             if (probe.calls[qual] > 40 and not top_level_probe) or probe.depth > 6:       # enough observations of this callable / deep recursion
                 return fn(*args, **kwargs)
             try:
@@ -321,14 +324,14 @@ class Probe:
             d0 = snap(list(fn.__defaults__)) if fn.__defaults__ else None
             probe.depth += 1
             try:
-                if probe.identity and probe.depth == 1 and probe.identity_calls.get(qual, 0) < 2:
+                if probe.identity and not no_rerun and probe.depth == 1 and probe.identity_calls.get(qual, 0) < 2:
                     probe.identity_calls[qual] = probe.identity_calls.get(qual, 0) + 1
                     probe.type_calls.add((qual, tuple(sorted((k_, repr(v_)[:40]) if isinstance(v_, (bool, int, str, list, tuple)) and len(repr(v_)) < 200 else (k_, '')
                                                              for k_, v_ in bound.arguments.items() if k_ != 'self'))))
                     return probe.identity_probe(fn, qual, args, kwargs)
                 tkey = (qual, tuple(sorted((k_, repr(v_)[:40]) if isinstance(v_, (bool, int, str, list, tuple)) and len(repr(v_)) < 200 else (k_, '')
                                            for k_, v_ in bound.arguments.items() if k_ != 'self')))
-                if probe.identity and probe.depth == 1 and tkey not in probe.type_calls and sum(1 for q, _ in probe.type_calls if q == qual) < 24:
+                if probe.identity and not no_rerun and probe.depth == 1 and tkey not in probe.type_calls and sum(1 for q, _ in probe.type_calls if q == qual) < 24:
                     # a call of an already probed function that passes ANOTHER set of arguments: only the argument-type variants (vii)
                     probe.type_calls.add(tkey)
                     import random as _rnd
@@ -466,7 +469,23 @@ class Probe:
             return
         if not torch.equal(st0, torch.get_rng_state()) or not np.array_equal(nst0, np.random.get_state()[1]):
             return
-        for sname in list(ST.SETTINGS)[:2]:          # CPU autocast legitimately changes every function that multiplies matrices or convolves: judged per property (C11)
+        def _nonfinite(x):
+            if x[0] == 't':
+                t = x[3]
+                return bool((t.is_floating_point() or t.is_complex()) and t.numel() and not torch.isfinite(torch.view_as_real(t) if t.is_complex() else t).all())
+            if x[0] == 'nd':
+                return bool(x[3].dtype.kind in 'fc' and x[3].size and not np.isfinite(x[3]).all())
+            if x[0] == 'seq':
+                return any(_nonfinite(e) for e in x[2])
+            if x[0] == 'dict':
+                return any(_nonfinite(v) for _, v in x[1])
+            return False
+        if _nonfinite(r_base):
+            return          # overflow / division by zero in the result: where float32 gives inf, float64 gives a finite number - not a dependence on the setting
+        # only the grad mode here: it never changes a value.  The default dtype changes the precision of constants built inside a function (results near a
+        # branch cut - a phase at +-pi - or near an overflow then differ legitimately) and CPU autocast changes every matrix product: both are judged per
+        # property on well-conditioned outputs (lib/settings.py differential in C11, C13, C15-C18)
+        for sname in ['torch.set_grad_enabled(False)']:
             try:
                 with ST.SETTINGS[sname]():
                     _seed()
